@@ -228,7 +228,7 @@ func encode(ctx *encoder.RuntimeContext, v interface{}) ([]byte, error) {
 		return nil, err
 	}
 
-	p := uintptr(header.ptr)
+	p := rootPointer(ctx, codeSet, header.ptr)
 	ctx.Init(p, codeSet.CodeLength)
 	ctx.KeepRefs = append(ctx.KeepRefs, header.ptr)
 
@@ -256,7 +256,7 @@ func encodeNoEscape(ctx *encoder.RuntimeContext, v interface{}) ([]byte, error) 
 		return nil, err
 	}
 
-	p := uintptr(header.ptr)
+	p := rootPointer(ctx, codeSet, header.ptr)
 	ctx.Init(p, codeSet.CodeLength)
 	buf, err := encodeRunCode(ctx, b, codeSet)
 	if err != nil {
@@ -283,7 +283,7 @@ func encodeIndent(ctx *encoder.RuntimeContext, v interface{}, prefix, indent str
 		return nil, err
 	}
 
-	p := uintptr(header.ptr)
+	p := rootPointer(ctx, codeSet, header.ptr)
 	ctx.Init(p, codeSet.CodeLength)
 	buf, err := encodeRunIndentCode(ctx, b, codeSet, prefix, indent)
 
@@ -295,6 +295,19 @@ func encodeIndent(ctx *encoder.RuntimeContext, v interface{}, prefix, indent str
 
 	ctx.Buf = buf
 	return buf, nil
+}
+
+// rootPointer returns what the program of the root value is started with: the interface word, or,
+// for a value whose program addresses memory although the value is the word itself ( a one-element
+// array of pointers ), the address of a copy of the word.
+func rootPointer(ctx *encoder.RuntimeContext, codeSet *encoder.OpcodeSet, ptr unsafe.Pointer) uintptr {
+	if !codeSet.BoxedValue {
+		return uintptr(ptr)
+	}
+	box := new(unsafe.Pointer)
+	*box = ptr
+	ctx.KeepRefs = append(ctx.KeepRefs, unsafe.Pointer(box))
+	return uintptr(unsafe.Pointer(box))
 }
 
 func encodeRunCode(ctx *encoder.RuntimeContext, b []byte, codeSet *encoder.OpcodeSet) ([]byte, error) {
